@@ -81,6 +81,7 @@ def run(ctx):
         g, s = case_str.get(cid, (None, ""))
         return "%s %s" % (gsrc.get(g, "?"), s)
 
+    viol = []
     for line in out.split("\n"):
         if not line.strip():
             continue
@@ -134,15 +135,18 @@ def run(ctx):
         judge_eval += 1
         if judge != "ok":
             judge_bad += 1
-            ctx.violation("judge", "C03 judge failed on the real parser's output: " + judge,
-                          {"case": cid, "spec": spec_of(cid), "result": kv},
-                          fingerprint={"clause": clause_of(judge), "kind": gkind.get(g, "?")})
+            viol.append((ln, "judge", "C03 judge failed on the real parser's output: " + judge,
+                         {"case": cid, "spec": spec_of(cid), "result": kv},
+                         {"clause": clause_of(judge), "kind": gkind.get(g, "?")}, True))
         elif kv["corr"] not in ("ok", "skip"):
             corr_bad += 1
-            ctx.violation("corr", "model LR driver on the dumped table and the real parser disagree: " + kv["corr"],
-                          {"case": cid, "spec": spec_of(cid), "result": kv,
-                           "correspondence": "TsVerif.C03.run on the dumped table vs ts_parser_parse"},
-                          fingerprint={"corr": kv["corr"][:30]}, found_input=False)
+            viol.append((ln, "corr", "model LR driver on the dumped table and the real parser disagree: " + kv["corr"],
+                         {"case": cid, "spec": spec_of(cid), "result": kv,
+                          "correspondence": "TsVerif.C03.run on the dumped table vs ts_parser_parse"},
+                         {"corr": kv["corr"][:30]}, False))
+    # smallest failing inputs first (they become the replay files)
+    for _, kind, what, payload, fp, found in sorted(viol, key=lambda v: v[0]):
+        ctx.violation(kind, what, payload, fingerprint=fp, found_input=found)
     ctx.oblige("corr:Model.Driver=ts_parser_parse", corr_bad == 0, "%d disagreements" % corr_bad)
     ctx.oblige("premise:tableClosed-on-every-dumped-table", gram["closed"] == gram["tables"],
                "%d/%d" % (gram["closed"], gram["tables"]))
